@@ -1,3 +1,4 @@
+pub mod c05;
 pub mod c09;
 pub mod c12;
 pub mod c14;
@@ -7,6 +8,7 @@ use serde_json::Value;
 
 pub fn run_property(ctx: &mut Ctx) -> bool {
     match ctx.id.as_str() {
+        "C05" => c05::run(ctx),
         "C09" => c09::run(ctx),
         "C12" => c12::run(ctx),
         "C14" => c14::run(ctx),
@@ -48,6 +50,7 @@ pub fn replay(body: &Value) -> i32 {
     let part = body["part"].as_str().unwrap_or("");
     match part {
         "segments" => replay_part(&c09::SegPart, body),
+        "roundtrip" => replay_part(&c05::RtPart, body),
         "checksum" => replay_part(&c14::CkPart, body),
         "confinement" => replay_part(&c12::FsPart, body),
         other => {
